@@ -461,6 +461,7 @@ class Packet(object):
     MAX_FRAGMENT_SIZE = 1024
 
     MAX_FRAGMENTS = 0x2000 # ~11mb
+    MAX_MESSAGES = 0xFF # the header stores the message count in one byte
     RECV_SIZE = 2048
 
 
@@ -1161,7 +1162,7 @@ class ConnectionBase(object):
                 # calculate the size of the packet so far + this message
                 size = len(msg.payload) + Packet.overhead(1+len(msgs)) + current_msg_length
                 # if the message fits add it to the packet
-                if size <= max_size:
+                if size <= max_size and len(msgs) < Packet.MAX_MESSAGES:
                     del self.pending_retry_msg[msgseq]
                     msgs.append(msg)
                     current_msg_length += len(msg.payload)
@@ -1178,7 +1179,7 @@ class ConnectionBase(object):
             # calculate the size of the packet so far + this message
             size = len(pending.payload) + Packet.overhead(1+len(msgs)) + current_msg_length
             # if the message fits add it to the packet
-            if size <= max_size:
+            if size <= max_size and len(msgs) < Packet.MAX_MESSAGES:
                 self.outgoing_messages.pop(idx)
                 msgs.append(pending)
                 current_msg_length += len(pending.payload)
